@@ -87,6 +87,7 @@ type Node struct {
 	Names []string `json:"names,omitempty"`
 	Rules []Rule   `json:"rules,omitempty"`
 	Note  string   `json:"note,omitempty"`
+	Dash  bool     `json:"dash,omitempty"`  // rules followed by a dash and no note text: an empty note
 	TNote string   `json:"tnote,omitempty"` // objects with properties only: a note written after the closing brace (the object's note)
 	Ann   string   `json:"ann,omitempty"` // "block" / "spread": this node's annotation is written as a multi-line annotation whatever the layout says
 }
@@ -414,6 +415,8 @@ func (r *renderer) annotation(n Node) string {
 			} else {
 				body += " - " + note
 			}
+		} else if n.Dash {
+			body += " -"
 		} else if r.l.NoteTab && !hasItemNotes(n.Rules) {
 			body += "\t"
 		}
